@@ -22,7 +22,7 @@ def close_order(r, F):
     if len(fo) != 1 or len(fl) != 1 or len(cl) != 1:
         raise AnchorMissing("close_inner: closed.fetch_or / memory.flush / storage.close not found exactly once")
     # (a) idempotence: fetch_or(true) first; already-closed edge returns Ok touching nothing
-    r.require(fo[0].term.args[1].const_val() == 1 and all(fn.dominates(fo[0].idx, x.idx) for x in fl + cl) and "closed" in backslice(fn, fo[0].term.args[0], "prov").upvars | {"closed"} , fn,
+    r.require(fo[0].term.args[1].const_val() == 1 and all(fn.dominates(fo[0].idx, x.idx) for x in fl + cl) and bool(backslice(fn, fo[0].term.args[0], "prov").upvars & mir.upvars_from_param(F, fn, 1)), fn,
               "closed.fetch_or(true) first", "the closed flag is set before anything else", "close does not first set the closed flag", ln=fo[0].term.ln)
     ok = False
     for (swb, neg) in tables._bool_switches_on(fn, fo[0].idx):
@@ -39,7 +39,7 @@ def close_order(r, F):
         if d.place is None:
             continue
         sl = backslice(fn, d, "prov")
-        if "flush_on_close" in sl.upvars or set(sl.locals) & set(fn.var_locals("flush_on_close")):
+        if sl.upvars & mir.upvars_from_param(F, fn, 4):
             tt, ft = tables.bool_switch_targets(sw)
             guards.append((sw.idx, tt, ft))
     okf = any(fn.edge_guards(sw, tt, fl[0].idx) and fl[0].idx not in fn.reachable([ft], avoid=[sw]) for (sw, tt, ft) in guards)
@@ -94,7 +94,7 @@ def flush_all(r, F):
     if not w or not enq:
         raise AnchorMissing("HybridCachePipe::flush: Store::wait / Store::enqueue not found")
     r.require(all(hp.dominates(w[0].idx, q.idx) for q in enq), hp, "store.wait() before enqueueing", "pending writes are drained first", "the close-time flush does not first wait for pending writes", ln=w[0].term.ln)
-    nx = [b for b in hp.calls_to(r"Iterator::next$") if "pieces" in backslice(hp, b.term.args[0], "dep").upvars]
+    nx = [b for b in hp.calls_to(r"Iterator::next$") if backslice(hp, b.term.args[0], "dep").upvars & mir.upvars_from_param(F, hp, 2)]
     ok = False
     for n in nx:
         for (sb, pl, tm, other) in tables.variant_switch_on(hp, n.idx):
